@@ -574,6 +574,7 @@ func (f *FnEnc) callWith(fr *Frame, st *State, R string, in ssa.Value, cc *ssa.C
 		key := ifaceKey(cc)
 		con := f.eng.ifaceContract(key)
 		ord := f.nextCall(cc.Method.Name())
+		f.callAssertsNamed(fr, st, R, cc.Method.Name(), ord, nil, append([]Val{recv}, args...), pos)
 		if con != nil {
 			all := append([]Val{recv}, args...)
 			names := []string{"self"}
@@ -743,6 +744,10 @@ func (f *FnEnc) inline(fr *Frame, st *State, R string, callee *ssa.Function, arg
 // callAsserts emits `assert at call NAME#K` clauses of the enclosing
 // function's contract.
 func (f *FnEnc) callAsserts(fr *Frame, st *State, R string, short string, ord int, callee *ssa.Function, args []Val, pos token.Pos) {
+	f.callAssertsNamed(fr, st, R, short, ord, paramNames(callee), args, pos)
+}
+
+func (f *FnEnc) callAssertsNamed(fr *Frame, st *State, R string, short string, ord int, names []string, args []Val, pos token.Pos) {
 	con := f.eng.contractOf(fr.fn)
 	if con == nil {
 		return
@@ -752,8 +757,17 @@ func (f *FnEnc) callAsserts(fr *Frame, st *State, R string, short string, ord in
 			continue
 		}
 		se := f.specEnvFor(fr, st, R)
-		for i, n := range paramNames(callee) {
-			se.vars["arg_"+n] = args[i]
+		if fr == f.top {
+			for k, v := range f.params {
+				if _, shadow := se.vars[k]; !shadow && fr.byName[k] == nil {
+					se.vars[k] = v
+				}
+			}
+		}
+		for i := range args {
+			if i < len(names) {
+				se.vars["arg_"+names[i]] = args[i]
+			}
 			se.vars[fmt.Sprintf("arg%d", i)] = args[i]
 		}
 		label := ca.Clause.Label
